@@ -64,7 +64,27 @@ def percell_part(ctx):
                     if c in seen and seen[c] != obs[1][j]:
                         broken = c
                     seen.setdefault(c, obs[1][j])
-            if broken is not None:
+            if broken is None:
+                # search for a failing input: map each differing cell alone (same oracle) and compare
+                # with the row it got in company -- the property's own statement on the implementation
+                for c in bad[:4]:
+                    try:
+                        alone, _ = routing.run_impl(gt, [c], table)
+                        row_alone = routing.canon_impl(gt, alone)[0]
+                    except Exception:
+                        continue
+                    j = ids.index(c)
+                    if j < len(obs[1]) and obs[1][j] != row_alone:
+                        desc['class'] = 'c06-row-depends-on-company'
+                        desc['cell'] = c
+                        desc['row_alone'] = row_alone
+                        desc['row_in_company'] = obs[1][j]
+                        ctx.violation(f'cell {c} gets a different row when mapped alone than in the company {ids}', desc)
+                        broken = 'reported'
+                        break
+            if broken == 'reported':
+                pass
+            elif broken is not None:
                 desc['class'] = 'c06-same-cell-different-rows'
                 ctx.violation(f'cell {broken} occurs twice in one query and got two different rows', desc)
             else:
@@ -80,7 +100,10 @@ def run(ctx):
                 'worker count, (f) raw counts instead of dyadic log2CPM values; joined on cell id; assignments, '
                 'probabilities and runner-up lists equal, correlations within 1e-9; non-trivial = a compared cell in a '
                 'tree with >= 2 levels or >= 3 leaves')
-    ctx.assumptions += ['correlations are compared within 1e-9: BLAS may sum in a different order when the company of a '
+    ctx.assumptions += ['a cell whose vote at some node is a near tie (best correlation matched within 1e-9 by a leaf of another child: '
+                        'two-marker nodes, identical reference profiles) is excused and counted (near_ties_excused): the last bit of a BLAS '
+                        'product may depend on the shape of the matrix the cell is mapped in',
+                        'correlations are compared within 1e-9: BLAS may sum in a different order when the company of a '
                         'cell changes']
     n = ctx.n(20, 300)
     for k in range(n):
@@ -90,6 +113,13 @@ def run(ctx):
         if raw:
             sc.query = np.array([[float(rng.randrange(0, 50)) for _ in sc.query_genes] for _ in sc.cell_ids])
         norm = 'raw' if raw else 'log2CPM'
+        flat_cell = None
+        if not raw and rng.random() < 0.5:
+            # a cell whose profile varies ~1e-8 times less than its neighbours' (exact dyadic values, so the
+            # correlation arithmetic is as stable as for any other cell)
+            flat_cell = rng.randrange(len(sc.cell_ids))
+            sc.query[flat_cell] = np.array([4.0 + rng.randrange(0, 97) * 2.0 ** -24 for _ in sc.query_genes])
+        ctx.dist('near_flat_cell', flat_cell is not None)
         base = paired.run_once(ctx, sc, f'b{k}', normalization=norm, **var)
         desc = {'kind': 'paired-run', 'tree': sc.tree.data, 'markers': sc.markers, 'cell_ids': sc.cell_ids,
                 'query': sc.query.tolist(), 'query_genes': sc.query_genes, 'ref_genes': sc.ref_genes,
@@ -115,6 +145,8 @@ def run(ctx):
         variants.append(('superset', ids2, q2, dict(var)))
         dup = rng.randrange(ncell)
         variants.append(('duplicate', sc.cell_ids + ['dup000', 'dup001'], np.vstack([sc.query, sc.query[dup], sc.query[dup]]), dict(var)))
+        one = flat_cell if flat_cell is not None else rng.randrange(ncell)
+        variants.append(('single-cell', [sc.cell_ids[one]], sc.query[[one]], dict(var)))
         v2 = dict(var)
         v2['chunk_size'] = rng.randrange(1, ncell + 3)
         v2['n_processors'] = rng.randrange(1, 5)
@@ -142,6 +174,10 @@ def run(ctx):
                     continue
                 diff = paired.compare_records(b[src], v[cid], sc.tree.levels)
                 if diff:
+                    j = ids.index(cid)
+                    if paired.near_tie_cell(sc, r['output'], np.asarray(q)[j], sc.query_genes, norm):
+                        ctx.extra['near_ties_excused'] = ctx.extra.get('near_ties_excused', 0) + 1
+                        continue
                     ctx.disagreements_checked += 1
                     dd['class'] = f'c06-{name}'
                     ctx.violation(f'cell {cid}: result changed under {name}: {diff}', dd)
